@@ -14,7 +14,7 @@ use saito_core::core::consensus::wallet::Wallet;
 use saito_core::core::defs::{SaitoHash, SaitoPrivateKey, SaitoPublicKey, SaitoSignature};
 use saito_core::core::io::storage::Storage;
 use saito_core::core::util::crypto::{generate_keypair_from_private_key, hash};
-use tokio::sync::RwLock;
+use saito_core::core::util::verif::RwLock;
 
 use crate::rng::Rng;
 use crate::simcfg::SimConfig;
